@@ -651,6 +651,7 @@ BODIES = [
     ("PFC_load", "StringDictionaryPFC.cpp", "StringDictionaryPFC::load", 0),
     ("RG_rank1", "libcds/src/bitsequence/BitSequenceRG.cpp", "BitSequenceRG::rank1", 0),
     ("RG_select1", "libcds/src/bitsequence/BitSequenceRG.cpp", "BitSequenceRG::select1", 0),
+    ("RG_select0", "libcds/src/bitsequence/BitSequenceRG.cpp", "BitSequenceRG::select0", 0),
     ("RG_BuildRank", "libcds/src/bitsequence/BitSequenceRG.cpp", "BitSequenceRG::BuildRank", 0),
 ]
 
